@@ -18,13 +18,16 @@ import (
 	eng "github.com/snapcore/snapd/verifengine"
 )
 
-var stView = viewSpec{Rules: []ruleT{{"a", "s.a", "read-write"}, {"b", "s.b", "read-write"}, {"w", "s.w", "write"}, {"r", "s.r", "read"}}}
+var stView = viewSpec{Rules: []ruleT{{"a", "s.a", "read-write"}, {"b", "s.b", "read-write"}, {"w", "s.w", "write"}, {"r", "s.r", "read"},
+	// two rules written by one request "sys": the nested storage path belongs to the request that sorts first
+	{"sys.hostname", "t.hostname", "read-write"}, {"sys.settings", "t", "read-write"}}}
 
 // stSchemaBody: the assertion body must be canonical JSON (2-space indent, sorted keys)
 func stSchemaBody() []byte {
 	b, err := json.MarshalIndent(map[string]interface{}{"storage": map[string]interface{}{"schema": map[string]interface{}{
 		"s": map[string]interface{}{"schema": map[string]interface{}{
-			"a": map[string]interface{}{"type": "int", "max": 5}, "b": "any", "w": "any", "r": "any"}}}}}, "", "  ")
+			"a": map[string]interface{}{"type": "int", "max": 5}, "b": "any", "w": "any", "r": "any"}},
+		"t": "any"}}}, "", "  ")
 	if err != nil {
 		panic(err)
 	}
@@ -58,10 +61,14 @@ func stOps() []stOp {
 	for _, reg := range []string{"reg1", "reg2"} {
 		for _, req := range []map[string]interface{}{
 			{"a": 1}, {"a": 2, "b": 3}, {"a": 9}, {"a": 1, "r": 1}, {"b": 4, "zzz": 1}, {"w": 4}, {"a": nil}, {"b": 5, "a": nil}, {"b": 6, "a": 9}, {},
+			// one request covering two rules with nested storage; without the value of one rule (rejected); the nested
+			// rule alone; the outer value holding its own "hostname" plus an unrelated field; with a field the schema rejects
+			{"sys": M{"settings": M{"x": 1}, "hostname": 2}}, {"sys": M{"hostname": 3}}, {"sys.hostname": 4},
+			{"sys": M{"settings": M{"hostname": 5, "x": 2}, "hostname": 6}, "a": 1}, {"sys": M{"settings": M{"x": 7}, "hostname": 8}, "a": 9},
 		} {
 			ops = append(ops, stOp{Reg: reg, View: "v", Set: req})
 		}
-		for _, f := range [][]string{{"a"}, {"a", "b"}, {"w"}, {"r", "a"}, nil, {"zzz"}} {
+		for _, f := range [][]string{{"a"}, {"a", "b"}, {"w"}, {"r", "a"}, nil, {"zzz"}, {"sys.hostname"}, {"sys"}} {
 			ops = append(ops, stOp{Reg: reg, View: "v", Get: f, IsRead: true})
 		}
 	}
@@ -148,8 +155,12 @@ func stSchemaRejects(bag M) bool {
 }
 
 // stStep runs one call on a fresh state holding `before` and checks it; returns the entry afterwards.
+var stLeafChecks int64
+
 func stStep(f *stFixture, before string, o stOp) (after string, class string, vs []viol) {
-	add := func(k, m string) { vs = append(vs, viol{k, m}) }
+	var leafChecks int64
+	defer func() { stLeafChecks += leafChecks }()
+	add := func(k, m string) { vs = append(vs, viol{key: k, msg: m}) }
 	st := stNewState(before)
 	bags := stBags(before)
 	known := o.Reg == "reg1" || o.Reg == "reg2"
@@ -259,6 +270,45 @@ func stStep(f *stFixture, before string, o stOp) (after string, class string, vs
 		return after, class, vs
 	}
 	if err == nil {
+		// the statement's read-after-write clause for every leaf request a field covers (see coveredLeaves)
+		var all [][]expWrite
+		fields := make([]string, 0, len(o.Set))
+		for fld := range o.Set {
+			fields = append(fields, fld)
+		}
+		sort.Strings(fields)
+		for _, fld := range fields {
+			ws, _ := covered(stView, op{Kind: "set", Req: fld, Val: o.Set[fld]})
+			all = append(all, ws)
+		}
+		for i, fld := range fields {
+			if o.Set[fld] == nil {
+				continue
+			}
+		leaves:
+			for _, l := range coveredLeaves(stView, op{Kind: "set", Req: fld, Val: o.Set[fld]}) {
+				// not when another field of the same call addresses storage at, above or below this leaf
+				for _, w := range all[i] {
+					if strings.Join(w.req, ".") != l.req {
+						continue
+					}
+					for j := range fields {
+						for _, f := range all[j] {
+							if j != i && (hasPrefix(f.sto, w.sto) || hasPrefix(w.sto, f.sto)) {
+								continue leaves
+							}
+						}
+					}
+				}
+				leafChecks++
+				st.Lock()
+				got, gerr := GetViaView(st, f.acc, o.Reg, o.View, []string{l.req})
+				st.Unlock()
+				if gerr != nil || canon(norm(got)) != canon(M{l.req: l.val}) {
+					add("state-leaf-read-after-write:"+o.String(), fmt.Sprintf("GetViaView(%q) after successful %s on %q = %s, err=%v; the value written through the read-write rule is %s", l.req, o, before, canon(got), gerr, canon(l.val)))
+				}
+			}
+		}
 		// exactly this registry's bag changed, to exactly the reference; every other bag is as before
 		if bags[f.acc] == nil {
 			bags[f.acc] = map[string]M{}
@@ -336,6 +386,7 @@ func runStatePart(r *eng.Run) {
 	_ = start
 	r.Add("state_entry_point_evaluations", evals)
 	r.Add("state_rejected_writes_checked", rejected)
+	r.Add("state_covered_leaf_reads_compared_with_written_value", stLeafChecks)
 	r.Add("evaluations", evals)
 	r.Add("distinct_nontrivial", nontriv)
 	r.Add("states", int64(len(seen)))
